@@ -324,6 +324,38 @@ func main() {
 			run.NonTrivial("S1 " + variant)
 		}
 	})
+	// S1c: identity within one issuer — serials that collide under truncation / prefixing
+	goRun(func() {
+		base := new(big.Int).SetBytes([]byte{0x5a, 0x17, 0x23, 0x99, 0x01, 0x02, 0x03, 0x04})
+		pairs := map[string][2]*big.Int{
+			"plus-2^64":        {base, new(big.Int).Add(base, new(big.Int).Lsh(big.NewInt(1), 64))},
+			"plus-2^128":       {base, new(big.Int).Add(base, new(big.Int).Lsh(big.NewInt(1), 128))},
+			"plus-2^32":        {base, new(big.Int).Add(base, new(big.Int).Lsh(big.NewInt(1), 32))},
+			"decimal-prefix":   {big.NewInt(123456), big.NewInt(1234567)},
+			"byte-suffix":      {big.NewInt(0x1234), big.NewInt(0x123400)},
+			"20-byte-low-bits": {new(big.Int).Lsh(big.NewInt(0x77), 152), new(big.Int).Add(new(big.Int).Lsh(big.NewInt(0x77), 152), big.NewInt(1))},
+		}
+		for name, pr := range pairs {
+			strict := newChecker(true, time.Hour)
+			chainA := w.Leaf(pr[0], nil, []string{w.OCSP.URL("/a")})
+			chainB := w.Leaf(pr[1], nil, []string{w.OCSP.URL("/a")})
+			e.set("/a", pr[0], world.OCSPStatus{Status: ocsp.Good}, "")
+			e.set("/a", pr[1], world.OCSPStatus{Status: ocsp.Revoked}, "")
+			_, errA := strict.IsRevoked(chainA[0], [][]*x509.Certificate{chainA})
+			hB := e.hits("/a", pr[1])
+			sB, errB := strict.IsRevoked(chainB[0], [][]*x509.Certificate{chainB})
+			run.Eval(2)
+			if errA != nil {
+				run.Inconclusive("S1c: query for A failed: " + errA.Error())
+				continue
+			}
+			if errB != nil || sB == nil || !sB.Revoked {
+				run.Violation("S1c.identity.serial-collision."+name, fmt.Sprintf("same issuer, serials %s (good, cached) and %s (revoked at the responder): the second was answered err=%v revoked=%v with %d responder hits", pr[0], pr[1], errB, sB != nil && sB.Revoked, e.hits("/a", pr[1])-hB), &report.Replay{Case: name})
+				continue
+			}
+			run.NonTrivial("S1c " + name)
+		}
+	})
 	// S4: zero duration, no nextUpdate => every call contacts the responder
 	goRun(func() {
 		chk := newChecker(true, 0)
